@@ -134,6 +134,7 @@ fn run_history(case: &Value, rng: &mut StdRng, st: &mut Stats, observed: &mut Ve
         let n = op["n"].as_u64().unwrap();
         let flt = op["flt"].as_u64().unwrap() != 0;
         let used_before = dm.used_disk_space();
+        let leak_before = leak;
         let mut res = "ok".to_string();
         let mut errtxt = String::new();
         let mut released: Option<PathBuf> = None;
@@ -239,9 +240,10 @@ fn run_history(case: &Value, rng: &mut StdRng, st: &mut Stats, observed: &mut Ve
         }
         // ---------------- the known defect: a failed OS write does not roll the global counter back
         let exp_res = op["res"].as_str().unwrap();
-        let leak_before = leak;
         let mut leaked_now = false;
-        if kind == "write" && res == "oserr" && exp_res == "oserr" && used == used_before + n * unit && n > 0 {
+        // (once the real counter is inflated by an earlier leak the model's admission decisions no longer
+        // apply, so the pattern is then recognised from the real observations alone)
+        if kind == "write" && res == "oserr" && (exp_res == "oserr" || leak_before > 0) && used == used_before + n * unit && n > 0 {
             leak += n * unit;
             leaked_now = true;
             st.known_leaks += 1;
